@@ -49,9 +49,12 @@ OpsOf(ft) ==
     [] ft = "datapack" -> {"LoadBlob", "ListPack", "CheckPack"}
 \* RawRange is a backend-level ranged read through the cache: no hash is checked at that level
 Verified(op) == op # "RawRange"
-\* CheckPack (check --read-data, whole-pack verification) reads a cached pack when there is one but never
-\* stores a pack in the cache: after it met a damaged copy the copy is gone, the next ordinary read replaces it
-Recaches(op) == op # "CheckPack"
+\* CheckPack (check --read-data, whole-pack verification) and ListPack (pack header) read a cached pack when
+\* there is one but never store a pack in the cache (plain pack handle): after they met a damaged copy the copy is
+\* gone and the next ordinary metadata read replaces it.  CheckPack by design reports the first, failed attempt as an
+\* error ("check successful on second attempt").
+Recaches(op) == op \notin {"CheckPack", "ListPack"}
+HealedResult(op) == IF op = "CheckPack" THEN {"good", "err"} ELSE {"good"}
 
 Steps == {"load", "flip", "trunc", "rm", "rmdir", "delrepo", "list", "berr", "warm"}
 
@@ -123,7 +126,8 @@ StepOK(r, i, s) ==
          \* found nothing to delete does not count); when the fresh download itself fails the load may fail, and
          \* an operation that never fills the cache leaves it without the damaged copy
          /\ (Verified(r.op) /\ s.dmg /\ ~s.forgot /\ s.inrepo /\ ~s.dirgone /\ AutoCached(r.ftype) /\ ~o.bfault)
-               => IF Recaches(r.op) THEN o.out = "good" /\ o.cache = "good" ELSE o.cache # "bad"
+               => /\ o.out \in HealedResult(r.op)
+                  /\ IF Recaches(r.op) THEN o.cache = "good" ELSE o.cache # "bad"
          \* restic itself never produces a bad cached file
          /\ (~s.dmg /\ o.cache # "bad")  \/ s.dmg
     [] a = "warm" ->
